@@ -356,6 +356,81 @@ class ScalaCall:
         self.c2_un = X.from_scala(e[3])
         d = C.def_('Call', 'allelePairUnchecked')
         self.apu = d
+        # --- Call0 / Call1: which (ar, phased, ploidy) they hand to Call.apply
+        self.ctor_args: Dict[int, Tuple[List[str], List[tuple]]] = {}
+        for n_, obj in ((0, 'Call0'), (1, 'Call1')):
+            d = C.def_(obj, 'apply')
+            st = d.stmts()
+            for s_ in st[:-1]:
+                ctx.need(_sc_effect_only(s_), f'{CALLSC}::{obj}.apply: unrecognised statement before the result')
+            ctx.need(st and st[-1][0] == 'expr', f'{CALLSC}::{obj}.apply does not end in an expression')
+            a = X.from_scala(st[-1][1])
+            ctx.need(a[0] == 'call' and a[1] == ('name', 'Call') and len(a[2]) == 3, f'{CALLSC}::{obj}.apply is not Call(ar, phased, ploidy = n)')
+            order = {None: None}
+            args = {}
+            for i, (kw, v) in enumerate(a[2]):
+                args[kw if kw is not None else names[i]] = v
+            ctx.need(set(args) == {'ar', 'phased', 'ploidy'}, f'{CALLSC}::{obj}.apply passes {sorted(args)} to Call.apply')
+            self.ctor_args[n_] = ([p[0] for p in d.params], [args['ar'], args['phased'], args['ploidy']])
+        # --- Genotype.diploidGtIndex / diploidGtIndexWithSwap as trees
+        gd = G.def_('Genotype', 'diploidGtIndex', n_params=2)
+        for s_ in gd.stmts()[:-1]:
+            ctx.need(_sc_effect_only(s_), f'{GENOSC}::Genotype.diploidGtIndex: unrecognised statement')
+        self.gt_index = ([p[0] for p in gd.params], _sc_ret(ctx, gd, 'Genotype.diploidGtIndex'))
+        gs = G.def_('Genotype', 'diploidGtIndexWithSwap')
+        self.gt_index_swap = ([p[0] for p in gs.params], X.from_scala(gs.body))
+        self.acc_trees = {}
+        for k_, nm_ in (('phased', 'isPhased'), ('ploidy', 'ploidy'), ('repr', 'alleleRepr')):
+            d = C.def_('Call', nm_)
+            self.acc_trees[k_] = (d.params[0][0], _sc_ret(ctx, d, f'Call.{nm_}'))
+
+    # ---- the engine's packing / unpacking as functions (evaluation of the extracted trees, JVM Int arithmetic) ----
+    def apply_word(self, ar: int, phased: bool, ploidy: int) -> int:
+        """Call.apply(ar, phased, ploidy) from the extracted field table; Undefined when the engine calls fatal()."""
+        if ploidy < 0 or ploidy > 2 or ar < 0 or (ar >> self.max_repr_shift) != 0:
+            raise X.Undefined(f'Call.apply rejects ar={ar}, ploidy={ploidy}')
+        w = (int(bool(phased)) << self.w['phased'][0]) | (ploidy << self.w['ploidy'][0]) | (ar << self.w['repr'][0])
+        return w & 0xFFFFFFFF
+
+    def _funcs(self) -> Dict[str, Any]:
+        def gt(j, k):
+            if j < 0 or j > k:
+                raise X.Undefined(f'diploidGtIndex({j}, {k}) throws')
+            return X.ev(self.gt_index[1], {self.gt_index[0][0]: j, self.gt_index[0][1]: k}, 'scala')
+
+        def gts(i, j):
+            return X.ev(self.gt_index_swap[1], {self.gt_index_swap[0][0]: i, self.gt_index_swap[0][1]: j}, 'scala', {'diploidGtIndex': gt, 'Genotype.diploidGtIndex': gt})
+
+        def from_gt(g):
+            if g < 0 or (g >> self.max_repr_shift) != 0:
+                raise X.Undefined(f'fromUnphasedDiploidGtIndex rejects {g}')
+            return ((self.w2['ploidy'][1] << self.w2['ploidy'][0]) | (g << self.w2['repr'][0])) & 0xFFFFFFFF
+
+        return {'Call': lambda ar, ph, pl, *rest: self.apply_word(ar, ph, pl), 'Genotype.diploidGtIndex': gt, 'diploidGtIndex': gt, 'Genotype.diploidGtIndexWithSwap': gts,
+                'diploidGtIndexWithSwap': gts, 'fromUnphasedDiploidGtIndex': from_gt, 'Call2.fromUnphasedDiploidGtIndex': from_gt}
+
+    def engine_word(self, alleles: List[int], phased: bool) -> int:
+        """The 32-bit word CallN(alleles, phased) produces (unsigned)."""
+        n = len(alleles)
+        if n in (0, 1):
+            ps, (ar, ph, pl) = self.ctor_args[n]
+            env = {'phased': phased}
+            if n == 1:
+                env[ps[0]] = alleles[0]
+                if alleles[0] < 0:
+                    raise X.Undefined('Call1 rejects negative allele')
+            return self.apply_word(X.ev(ar, env, 'scala'), X.ev(ph, env, 'scala'), X.ev(pl, env, 'scala'))
+        p0, p1 = self.call2.params[0][0], self.call2.params[1][0]
+        env = {p0: alleles[0], p1: alleles[1], 'phased': phased}
+        return X.ev(self.c2_ph if phased else self.c2_un, env, 'scala', self._funcs()) & 0xFFFFFFFF
+
+    def engine_fields(self, word: int) -> Tuple[int, bool, int]:
+        """(ploidy, phased, allele representation) the engine's accessors read from a word"""
+        c = word - (1 << 32) if word >= (1 << 31) else word
+        out = {}
+        for k_, (prm, tree) in self.acc_trees.items():
+            out[k_] = X.ev(tree, {prm: c}, 'scala')
+        return out['ploidy'], bool(out['phased']), out['repr']
 
 
 def _call_args(e: tuple, fn_names: Tuple[str, ...]) -> Optional[List[tuple]]:
@@ -365,12 +440,275 @@ def _call_args(e: tuple, fn_names: Tuple[str, ...]) -> Optional[List[tuple]]:
 
 
 # --------------------------------------------------------------------------------------
+# semantic rules: the whole converter bodies are evaluated (own interpreter over the syntax trees) on a finite domain
+# --------------------------------------------------------------------------------------
+
+HAPLOID_REPRS = [0, 1, 2, 7, 255, 65535, 65536, (1 << 28) - 1, 1 << 28, (1 << 28) + 1, (1 << 29) - 2, (1 << 29) - 1]
+DIPLOID_PAIRS = [(0, 0), (0, 1), (1, 1), (0, 2), (2, 2), (1, 7), (7, 7), (0, 8), (3, 8), (0, 96), (50, 96), (0, 1000), (1000, 1000), (16383, 32767), (0, 32767), (32766, 32766)]
+PHASED_INPUTS = [(0, 0), (1, 0), (0, 1), (2, 1), (1, 2), (3, 3), (5, 0), (7, 1), (100, 32000), (16383, 16384), (0, 32767), (32767, 0)]
+
+
+def _tri_inv(i: int) -> Tuple[int, int]:
+    """the pair (j, k), j <= k, with k(k+1)/2 + j == i (integer arithmetic)"""
+    k = int(((8 * i + 1) ** 0.5 - 1) // 2)
+    while (k + 1) * (k + 2) // 2 <= i:
+        k += 1
+    while k * (k + 1) // 2 > i:
+        k -= 1
+    return i - k * (k + 1) // 2, k
+
+
+class PySem:
+    """_tcall._convert_from_encoding / _convert_to_encoding as functions, by interpretation of their syntax trees.  Call values are
+    instances of the real `Call` class of genetics/call.py, built and inspected through the same interpreter (so Call.__init__'s sorting
+    of unphased pairs and whichever accessors the converters use are part of what is evaluated)."""
+
+    def __init__(self, ctx: Ctx, m: pf.Module):
+        self.m = m
+        self.dec = m.func('_tcall._convert_from_encoding')
+        self.enc = m.func('_tcall._convert_to_encoding')
+        self.cm = pf.load(CALLPY)
+        vc = W.value_class('Call')
+        ctx.need(vc.params[:2] == ['alleles', 'phased'], f'{CALLPY}::Call.__init__ parameters are {vc.params}')
+
+    def _interps(self) -> Tuple[X.PyInterp, Any]:
+        ci = X.PyInterp(self.cm)
+        call_cls = ci.global_value('Call', self.cm.tree)
+        ext = {n: call_cls for n in ('genetics.Call', 'Call', 'hl.Call', 'hl.genetics.Call', 'hail.genetics.Call')}
+        return X.PyInterp(self.m, ext), call_cls
+
+    def _self(self, it: X.PyInterp) -> X.PyObj:
+        o = X.PyObj('_tcall')
+        o.cls = it.global_value('_tcall', self.m.tree)
+        return o
+
+    @staticmethod
+    def _call_value(call_cls: Any, v: Any) -> Any:
+        if isinstance(v, X.PyObj) and v.cls is call_cls:
+            al = call_cls.member('alleles', v, call_cls.cdef)
+            ph = call_cls.member('phased', v, call_cls.cdef)
+            return ('Call', list(al) if isinstance(al, (list, tuple)) else al, ph)
+        return ('value', repr(v))
+
+    def decode(self, word: int) -> Any:
+        """result of the Python decoder on the unsigned 32-bit word: ('Call', alleles, phased) | ('raise', text) | ('value', repr)"""
+        signed = word - (1 << 32) if word >= (1 << 31) else word
+        rd = X.PyObj('ByteReader')
+        rd.methods['read_int32'] = lambda: signed
+        it, call_cls = self._interps()
+        try:
+            return self._call_value(call_cls, it.call_function(self.dec, [self._self(it), rd], {}, None))
+        except X.PyRaise as e:
+            return ('raise', str(e))
+
+    def encode(self, alleles: List[int], phased: bool) -> Any:
+        """('words', [ints written]) | ('raise', text)"""
+        out: List[int] = []
+        wr = X.PyObj('ByteWriter')
+
+        def w32(v):
+            if not isinstance(v, int) or isinstance(v, bool):
+                raise X.PyRaise(f'struct.error: required argument is not an integer ({v!r})')
+            if not (-(1 << 31) <= v < (1 << 31)):
+                raise X.PyRaise(f'struct.error: write_int32({v}) - argument out of range for a signed 32-bit integer')
+            out.append(v)
+        wr.methods['write_int32'] = w32
+        it, call_cls = self._interps()
+        try:
+            val = call_cls(list(alleles), bool(phased))
+            it.call_function(self.enc, [self._self(it), wr, val], {}, None)
+        except X.PyRaise as e:
+            return ('raise', str(e))
+        return ('words', out)
+
+
+def _show_call(alleles: List[int], phased: bool) -> str:
+    return f'Call({alleles}, phased={phased})'
+
+
+def _r7_decode(ctx: Ctx, m: pf.Module, ps: PySem, sc: ScalaCall):
+    """every word the engine can produce is unpacked by Python to the call the engine's accessors read from it"""
+    n_words = 0
+    for ploidy in (0, 1, 2):
+        for phased in (False, True):
+            cons = f'{F}::_tcall._convert_from_encoding::decodes engine words (ploidy {ploidy}, {"phased" if phased else "unphased"})'
+            bad = None
+            if ploidy == 0:
+                cases = [([], 0)]
+            elif ploidy == 1:
+                cases = [([r], r) for r in HAPLOID_REPRS]
+            else:
+                cases = [([j, k - j] if phased else [j, k], _tri(j, k)) for j, k in DIPLOID_PAIRS]
+            for alleles, rep in cases:
+                word = sc.apply_word(rep, phased, ploidy)
+                # what the engine itself reads back from that word (its accessors; pair inversion by the VCF-order specification, which R4/R5 tie the engine to)
+                e_pl, e_ph, e_rep = sc.engine_fields(word)
+                if e_pl == 0:
+                    e_alleles: Optional[List[int]] = []
+                elif e_pl == 1:
+                    e_alleles = [e_rep]
+                elif e_pl == 2 and e_rep >= 0:
+                    j, k = _tri_inv(e_rep)
+                    e_alleles = [j, k - j] if e_ph else [j, k]
+                else:
+                    e_alleles = None  # the engine throws
+                got = ps.decode(word)
+                n_words += 1
+                same = (got[0] == 'raise' and e_alleles is None) or got == ('Call', e_alleles, e_ph)
+                if not same:
+                    bad = (word, alleles, got, (e_pl, e_ph, e_rep, e_alleles))
+                    break
+            msg = ''
+            if bad:
+                word, alleles, got, (e_pl, e_ph, e_rep, e_alleles) = bad
+                shown = f'raises {got[1]}' if got[0] == 'raise' else (_show_call(got[1], got[2]) if got[0] == 'Call' else f'the non-Call value {got[1]}')
+                eng = _show_call(e_alleles, e_ph) if e_alleles is not None else 'an exception'
+                msg = (f'engine word {word:#010x} = Call.apply({word >> 3}, {phased}, {ploidy}) for {_show_call(alleles, phased)}; the engine reads it back as {eng} '
+                       f'(Call.ploidy/isPhased/alleleRepr: ploidy {e_pl}, phased {e_ph}, representation {e_rep}); '
+                       f'Python\'s decoder, given read_int32() = {word - (1 << 32) if word >= (1 << 31) else word}, yields {shown}')
+            ctx.check(bad is None, 'R7', cons, msg, m.path, ps.dec.lineno, detail={'words': len(cases)})
+    ctx.unit('words_decoded', n_words)
+
+
+def _r8_encode(ctx: Ctx, m: pf.Module, ps: PySem, sc: ScalaCall):
+    """decision list of the encoder: for every (ploidy, phased) case the word written == the word Call0/Call1/Call2 pack"""
+    n_calls = 0
+    for ploidy in (0, 1, 2):
+        for phased in (False, True):
+            cons = f'{F}::_tcall._convert_to_encoding::packs like the engine (ploidy {ploidy}, {"phased" if phased else "unphased"})'
+            if ploidy == 0:
+                cases = [[]]
+            elif ploidy == 1:
+                cases = [[r] for r in HAPLOID_REPRS]
+            elif phased:
+                cases = [[a, b] for a, b in PHASED_INPUTS if _tri(a, a + b) <= MAX_REPR]
+            else:
+                cases = [[j, k] for j, k in DIPLOID_PAIRS] + [[k, j] for j, k in DIPLOID_PAIRS[:8] if j != k]
+            bad = None
+            for alleles in cases:
+                got = ps.encode(alleles, phased)
+                n_calls += 1
+                try:
+                    want = sc.engine_word(alleles, phased)
+                except X.Undefined as ex:
+                    bad = (alleles, None, f'the engine rejects this call ({ex}); Python ' + (f'writes {got[1]}' if got[0] == 'words' else f'raises {got[1]}'))
+                    break
+                if got[0] == 'raise':
+                    bad = (alleles, want, f'raises {got[1]}')
+                elif len(got[1]) != 1:
+                    bad = (alleles, want, f'writes {len(got[1])} int32 words {got[1]}')
+                elif (got[1][0] & 0xFFFFFFFF) != want:
+                    v = got[1][0] & 0xFFFFFFFF
+                    diff = []
+                    if (v & 1) != (want & 1):
+                        diff.append(f'phased bit {v & 1} instead of {want & 1}')
+                    if ((v >> 1) & 3) != ((want >> 1) & 3):
+                        diff.append(f'ploidy field {(v >> 1) & 3} instead of {(want >> 1) & 3}')
+                    if (v >> 3) != (want >> 3):
+                        diff.append(f'allele representation {v >> 3} instead of {want >> 3}')
+                    bad = (alleles, want, f'writes {v:#010x} ({", ".join(diff)})')
+                if bad:
+                    break
+            msg = ''
+            if bad:
+                alleles, want, what = bad
+                if want is None:
+                    msg = f'{_show_call(alleles, phased)}: {what}'
+                else:
+                    msg = (f'{_show_call(alleles, phased)}: the engine packs {want:#010x} (Call{ploidy}/Call.apply: phased bit {want & 1}, ploidy {(want >> 1) & 3}, representation {want >> 3}); '
+                           f'Python {what}: the engine (and Python\'s own decoder) read a different call from the word Python sends')
+            ctx.check(bad is None, 'R8', cons, msg, m.path, ps.enc.lineno, detail={'calls': len(cases)})
+    ctx.unit('calls_encoded', n_calls)
+
+
+def _r2_sign(ctx: Ctx, m: pf.Module, ps: PySem) -> Optional[str]:
+    """Dataflow over every path of the decoder: the word read by read_int32 is signed; each use of it (or of a value derived from it) where
+    high bits matter must see the unsigned value.  Decided in the agreeing-low-bits domain of engines/exprir.SignDomain.
+    Returns a message if the function cannot be path-executed (the caller declines after all other rules have reported)."""
+    fn = ps.dec
+    stream = W.param_names(fn)[1]
+    cons = f'{F}::_tcall._convert_from_encoding::sign-safe use of the 32-bit word'
+    selfname = W.param_names(fn)[0]
+    cls = m.cls('_tcall')
+    base = m.cls('HailType')
+
+    def resolver(name: str):
+        parts = name.split('.')
+        if len(parts) == 2 and parts[0] in (selfname, '_tcall', 'HailType'):
+            for c in ((cls, base) if parts[0] != 'HailType' else (base,)):
+                f = W.methods(c).get(parts[1])
+                if f is not None and not parts[1].startswith('_convert_'):
+                    static = 'staticmethod' in pf.decorator_names(f)
+                    if 'classmethod' in pf.decorator_names(f) or 'property' in pf.decorator_names(f):
+                        return None
+                    return (f, 0 if static or parts[0] != selfname else 1)
+            return None
+        if len(parts) == 1 and m.has_func(name) and isinstance(m.func(name), ast.FunctionDef) and any(f is m.func(name) for f in m.tree.body):
+            return (m.func(name), 0)
+        return None
+
+    try:
+        se = X.SymExec(f'{F}::_tcall._convert_from_encoding', stream, resolver=resolver)
+        paths = se.run(fn, {})
+    except AnalysisError as e:
+        return f'sign analysis of the decoder not possible: {e}'
+    if not se.reads or any(k != 'read_int32' for k, _ in se.reads):
+        return f'sign analysis: the decoder reads {sorted({k for k, _ in se.reads})}, expected read_int32 only'
+    problems = []
+    undecided: Optional[str] = None
+    n_ret = 0
+    for p in paths:
+        sd = X.SignDomain()
+        facts = sd.path_facts(p.conds)
+        for c, pol, _ in p.conds:
+            sd.cond(c, facts)
+        if p.end[0] == 'return' and p.end[1] is not None:
+            n_ret += 1
+            sd.use(p.end[1], sd.bits(p.end[1], facts), 'the decoded call', facts)
+        if sd.opaque and undecided is None:
+            t, b, what = sd.opaque[0]
+            undecided = (f'sign analysis of the decoder: `{X.show(t).replace("$w", "word")[:80]}` (only the low {b} bits agree with the unsigned word) is {what}')
+        seen = set()
+        for t, b, what in sd.findings:
+            key = X.show(t)
+            if key in seen:
+                continue
+            seen.add(key)
+            # witness: a negative word satisfying the path on which the signed and the unsigned evaluation of the sub-expression differ
+            wit = ''
+            for w in (-(1 << 31) + 2, -(1 << 31) + 10, -6, -5, -14, -13, -(1 << 31) + 4, -(1 << 31) + 5, -4, -3):
+                try:
+                    if not all(bool(X.ev(c, {'$w': w}, 'py')) == pol for c, pol, _ in p.conds):
+                        continue
+                    a_, b_ = X.ev(t, {'$w': w}, 'py'), X.ev(t, {'$w': w + (1 << 32)}, 'py')
+                except (AnalysisError, X.Undefined, TypeError):
+                    continue
+                if a_ != b_:
+                    wit = f' e.g. word {w + (1 << 32):#010x} (read_int32() = {w}): `{X.show(t).replace("$w", "word")}` = {a_}, the engine (unsigned, >>>) has {b_}'
+                    break
+            cond_txt = ' and '.join(('' if pol else 'not ') + X.show(c).replace('$w', 'word')[:60] for c, pol, _ in p.conds) or 'always'
+            problems.append(f'on the path [{cond_txt}] `{X.show(t).replace("$w", "word")[:80]}` is computed from the still-signed word (only its low {b} bits agree with the '
+                            f'engine\'s unsigned value) and is used as {what}: Python >> is arithmetic, the engine uses >>>.{wit}')
+    if problems or undecided is None:
+        ctx.check(not problems, 'R2', cons, ' | '.join(problems[:3]), m.path, fn.lineno, detail={'paths': len(paths), 'returning': n_ret})
+    return undecided
+
+
+# --------------------------------------------------------------------------------------
 # rules
 # --------------------------------------------------------------------------------------
 
 
-def _r1(ctx: Ctx, m: pf.Module, pw: PyWriter, pr: PyReader, sc: ScalaCall):
-    ref = {'phased': (pw.fields['phased'][0], 1), 'ploidy': (pw.fields['ploidy'][0], None), 'repr': (pw.fields['repr1'][0], None)}
+def _r1(ctx: Ctx, m: pf.Module, pw: Optional[PyWriter], pr: Optional[PyReader], sc: ScalaCall):
+    legacy = pw is not None and pr is not None
+    if legacy:
+        ref = {'phased': (pw.fields['phased'][0], 1), 'ploidy': (pw.fields['ploidy'][0], None), 'repr': (pw.fields['repr1'][0], None)}
+        ref_name = 'the Python writer'
+    else:
+        # the statement shape of the Python converters is not the tabulated one: their agreement with the engine is decided by R7/R8;
+        # the Scala writers and accessors are still compared among themselves
+        ref = {k: (sc.w[k][0], None) for k in ('phased', 'ploidy', 'repr')}
+        ref_name = 'Call.apply'
     fpath = m.path
 
     def cmp(field: str, source: str, shift: int, mask: Optional[int], file: str, line: int, want_mask: Optional[int] = None):
@@ -378,12 +716,19 @@ def _r1(ctx: Ctx, m: pf.Module, pw: PyWriter, pr: PyReader, sc: ScalaCall):
         want = ref[field][0]
         msg = []
         if shift != want:
-            msg.append(f'{source} places/reads the {field} field at shift {shift}, the Python writer packs it at shift {want}')
+            msg.append(f'{source} places/reads the {field} field at shift {shift}, {ref_name} packs it at shift {want}')
         if want_mask is not None and mask is not None and mask != want_mask:
             msg.append(f'{source} masks the {field} field with {mask:#x}, expected {want_mask:#x}')
         ctx.check(not msg, 'R1', cons, '; '.join(msg) + f': a call encoded by one side is decoded to a different {field} by the other', file, line,
                   detail={'shift': shift, 'mask': mask})
 
+    if legacy:
+        _r1_python(ctx, m, pw, pr, cmp)
+    _r1_scala(ctx, sc, cmp)
+
+
+def _r1_python(ctx: Ctx, m: pf.Module, pw: PyWriter, pr: PyReader, cmp):
+    fpath = m.path
     # Python writer: both repr placements at the same shift
     cmp('repr', 'python writer (diploid)', pw.fields['repr2'][0], None, fpath, pw.fields['repr2'][2].lineno)
     # Python reader
@@ -404,8 +749,19 @@ def _r1(ctx: Ctx, m: pf.Module, pw: PyWriter, pr: PyReader, sc: ScalaCall):
     ctx.check(ph == 0 and plo == ph + 1 and rp == plo + 2 and sm[1] == 3, 'R1', f'{F}::_tcall::fields do not overlap',
               f'layout phased@{ph} (1 bit), ploidy@{plo} (mask {sm[1]:#x}), repr@{rp}: fields overlap or leave the 2-bit ploidy field short', fpath, pw.fn.lineno,
               detail={'phased': ph, 'ploidy': plo, 'repr': rp})
+    # the reader sources its ploidy-1 allele and the pair from the repr field of the word
+    a1, pre1 = pr.alleles.get(1, (None, []))
+    ctx.need(a1 is not None and 0 in pr.alleles and 2 in pr.alleles, '_tcall._convert_from_encoding: ploidy dispatch lacks one of 0/1/2')
+    ctx.check(pf.nsrc(pr.alleles[0][0]) == '[]', 'R1', f'{F}::_tcall._convert_from_encoding::ploidy 0', f'ploidy 0 decodes to `{pf.nsrc(pr.alleles[0][0])}`, not []', fpath, pr.fn.lineno)
+    ctx.check(pf.nsrc(a1) == f'[allele_repr({word})]', 'R1', f'{F}::_tcall._convert_from_encoding::ploidy 1',
+              f'haploid allele decoded as `{pf.nsrc(a1)}`, expected [allele_repr({word})]', fpath, a1.lineno)
+    src1 = pw.fields['repr1'][1]
+    ctx.check(src1 == ('index', ('name', f'{pw.value}.alleles'), ('int', 0)), 'R1', f'{F}::_tcall._convert_to_encoding::ploidy 1 source',
+              f'haploid representation is `{X.show(src1)}`, expected {pw.value}.alleles[0]', fpath, pw.fields['repr1'][2].lineno)
+
+
+def _r1_scala(ctx: Ctx, sc: ScalaCall, cmp):
     # Scala writers / readers
-    cp = S.load(CALLSC)
     from engines.common import repo_path
     scp = repo_path(CALLSC)
     for k in ('phased', 'ploidy', 'repr'):
@@ -418,15 +774,6 @@ def _r1(ctx: Ctx, m: pf.Module, pw: PyWriter, pr: PyReader, sc: ScalaCall):
               f'unphased diploid calls are packed with ploidy {sc.w2["ploidy"][1]}, not 2', scp, sc.call2.line)
     ctx.check(sc.repr_logical, 'R1', f'{CALLSC}::Call.alleleRepr::logical shift',
               'alleleRepr uses an arithmetic shift: representations >= 2^28 (sign bit set) decode to negative allele indices, while Python decodes them unsigned', scp, sc.apply_line)
-    # the reader sources its ploidy-1 allele and the pair from the repr field of the word
-    a1, pre1 = pr.alleles.get(1, (None, []))
-    ctx.need(a1 is not None and 0 in pr.alleles and 2 in pr.alleles, '_tcall._convert_from_encoding: ploidy dispatch lacks one of 0/1/2')
-    ctx.check(pf.nsrc(pr.alleles[0][0]) == '[]', 'R1', f'{F}::_tcall._convert_from_encoding::ploidy 0', f'ploidy 0 decodes to `{pf.nsrc(pr.alleles[0][0])}`, not []', fpath, pr.fn.lineno)
-    ctx.check(pf.nsrc(a1) == f'[allele_repr({word})]', 'R1', f'{F}::_tcall._convert_from_encoding::ploidy 1',
-              f'haploid allele decoded as `{pf.nsrc(a1)}`, expected [allele_repr({word})]', fpath, a1.lineno)
-    src1 = pw.fields['repr1'][1]
-    ctx.check(src1 == ('index', ('name', f'{pw.value}.alleles'), ('int', 0)), 'R1', f'{F}::_tcall._convert_to_encoding::ploidy 1 source',
-              f'haploid representation is `{X.show(src1)}`, expected {pw.value}.alleles[0]', fpath, pw.fields['repr1'][2].lineno)
 
 
 def _r2(ctx: Ctx, m: pf.Module, pw: PyWriter, pr: PyReader, sc: ScalaCall):
@@ -485,12 +832,10 @@ def _r2(ctx: Ctx, m: pf.Module, pw: PyWriter, pr: PyReader, sc: ScalaCall):
             if out != (v & 0xFFFFFFFF):
                 bad = (v, out)
                 break
-        # the bridge must come before the field extractions
-        first_use = min((n.lineno for n in ast.walk(pr.fn) if isinstance(n, ast.BinOp) and isinstance(n.op, (ast.RShift, ast.BitAnd)) and W.mentions(n, wv)), default=10**9)
-        ordered = u.lineno < first_use
-        ctx.check(bad is None and ordered, 'R2', cons,
-                  (f'int32 {bad[0]} is bridged to {bad[1]} instead of its unsigned value {bad[0] & 0xFFFFFFFF} (`{pf.nsrc(u)}`)' if bad else
-                   'the unsigned bridge is applied after the fields were extracted'), m.path, u.lineno, detail={'threshold': thr, 'modulus': mod})
+        # (that the bridge reaches every sign-sensitive use of the word is decided per path by the sign dataflow instance of R2)
+        ctx.check(bad is None, 'R2', cons,
+                  (f'int32 {bad[0]} is bridged to {bad[1]} instead of its unsigned value {bad[0] & 0xFFFFFFFF} (`{pf.nsrc(u)}`)' if bad else ''),
+                  m.path, u.lineno, detail={'threshold': thr, 'modulus': mod})
 
 
 def _eval_pair(args: List[tuple], env: Dict[str, Any], lang: str) -> Tuple[Any, ...]:
@@ -638,15 +983,18 @@ def _tri(j: int, k: int) -> int:
     return k * (k + 1) // 2 + j
 
 
-def _r4(ctx: Ctx, m: pf.Module, pw: PyWriter, pr: PyReader, sc: ScalaCall):
+def _r4(ctx: Ctx, m: pf.Module, pw: Optional[PyWriter], pr: Optional[PyReader], sc: ScalaCall):
     from engines.common import repo_path
     gp = repo_path(GENOSC)
     # forward formulas
-    idx_name = [n for n in pw.nested if 'index' in n]
-    ctx.need(len(idx_name) == 1, f'_tcall._convert_to_encoding: gt-index helper not found among {sorted(pw.nested)}')
-    gfn = pw.nested[idx_name[0]]
-    pj, pk = W.param_names(gfn)
-    pe = X.from_py(_ret_expr(ctx, gfn, idx_name[0]))
+    idx_name: List[str] = []
+    pe = pj = pk = gfn = None
+    if pw is not None:
+        idx_name = [n for n in pw.nested if 'index' in n]
+        ctx.need(len(idx_name) == 1, f'_tcall._convert_to_encoding: gt-index helper not found among {sorted(pw.nested)}')
+        gfn = pw.nested[idx_name[0]]
+        pj, pk = W.param_names(gfn)
+        pe = X.from_py(_ret_expr(ctx, gfn, idx_name[0]))
     sd = sc.G.def_('Genotype', 'diploidGtIndex', n_params=2)
     for st in sd.stmts()[:-1]:
         ctx.need(_sc_effect_only(st), f'{GENOSC}::Genotype.diploidGtIndex: unrecognised statement')
@@ -657,15 +1005,25 @@ def _r4(ctx: Ctx, m: pf.Module, pw: PyWriter, pr: PyReader, sc: ScalaCall):
     pts += [(0, kmax), (16383, kmax), (0, kmax - 1), (kmax - 1, kmax - 1), (1, 1000), (1000, 1000)]
     pts = [(j, k) for j, k in pts if _tri(j, k) <= MAX_REPR]
     bad = None
-    for j, k in pts:
-        a = X.ev(pe, {pj: j, pk: k}, 'py')
-        b = X.ev(se, {sj: j, sk: k}, 'scala')
-        if not (isinstance(a, int) and a == b == _tri(j, k)):
-            bad = (j, k, a, b)
-            break
-    ctx.check(bad is None, 'R4', f'{F}::_tcall._convert_to_encoding::{idx_name[0]}',
-              (f'gt index of (j={bad[0]}, k={bad[1]}): Python `{pf.nsrc(_ret_expr(ctx, gfn, idx_name[0]))}` = {bad[2]!r}, engine `{X.show(se)}` = {bad[3]!r}, '
-               f'VCF order k(k+1)/2+j = {_tri(bad[0], bad[1])}') if bad else '', m.path, gfn.lineno, detail={'points': len(pts)})
+    if pe is not None:
+        for j, k in pts:
+            a = X.ev(pe, {pj: j, pk: k}, 'py')
+            b = X.ev(se, {sj: j, sk: k}, 'scala')
+            if not (isinstance(a, int) and a == b == _tri(j, k)):
+                bad = (j, k, a, b)
+                break
+        ctx.check(bad is None, 'R4', f'{F}::_tcall._convert_to_encoding::{idx_name[0]}',
+                  (f'gt index of (j={bad[0]}, k={bad[1]}): Python `{pf.nsrc(_ret_expr(ctx, gfn, idx_name[0]))}` = {bad[2]!r}, engine `{X.show(se)}` = {bad[3]!r}, '
+                   f'VCF order k(k+1)/2+j = {_tri(bad[0], bad[1])}') if bad else '', m.path, gfn.lineno, detail={'points': len(pts)})
+    else:
+        # no separate gt-index helper in the encoder (formula inline): the engine formula is still compared with VCF order, the Python one by R8
+        for j, k in pts:
+            b = X.ev(se, {sj: j, sk: k}, 'scala')
+            if b != _tri(j, k):
+                bad = (j, k, b)
+                break
+        ctx.check(bad is None, 'R4', f'{GENOSC}::Genotype.diploidGtIndex', (f'engine gt index of (j={bad[0]}, k={bad[1]}) = {bad[2]!r}, VCF order k(k+1)/2+j = {_tri(bad[0], bad[1])}') if bad else '',
+                  gp, sd.line, detail={'points': len(pts)})
     # Call.unphased_diploid_gt_index (genetics/call.py)
     cm = pf.load(CALLPY)
     ufn = cm.func('Call.unphased_diploid_gt_index')
@@ -738,6 +1096,15 @@ def _r4(ctx: Ctx, m: pf.Module, pw: PyWriter, pr: PyReader, sc: ScalaCall):
               m.path, ps.lineno, detail={'indices': len(idxs)})
 
 
+def _reader_helper(m: pf.Module, name: str) -> Optional[pf.FuncDef]:
+    """A helper of the decoder: nested in _tcall._convert_from_encoding, a method-level or a module-level function of that name."""
+    fn = m.func('_tcall._convert_from_encoding')
+    for n in ast.walk(fn):
+        if isinstance(n, ast.FunctionDef) and n.name == name and n is not fn:
+            return n
+    return m.func(name) if m.has_func(name) else None
+
+
 def _table(ctx: Ctx, entries: List[tuple], ctor: str, where: str) -> List[Tuple[int, int]]:
     out = []
     for e in entries:
@@ -766,7 +1133,21 @@ def _r5(ctx: Ctx, m: pf.Module, pw: PyWriter, pr: PyReader, sc: ScalaCall):
     ctx.check(ptab[:n] == stab[:n], 'R5', f'{F}::small_allele_pair::equals engine table on the common prefix',
               f'tables differ at index {next((i for i in range(n) if ptab[i] != stab[i]), -1)}', m.path, tv.lineno, detail={'python_len': len(ptab), 'scala_len': len(stab)})
     # lookup bound
-    g = pr.helper(ctx, m, 'gt_allele_pair')
+    g = _reader_helper(m, 'gt_allele_pair')
+    if g is None:
+        ctx.need(pr is None, 'anchor vanished: gt_allele_pair')
+        ctx.info(f'{F}: no helper named gt_allele_pair in the decoder; where the small table is consulted is decided by R7 (words on both sides of the table boundary)')
+    else:
+        _r5_bound(ctx, m, g, ptab)
+    sd = sc.G.def_('Genotype', 'allelePair', n_params=1)
+    e = X.from_scala(sd.body)
+    si = sd.params[0][0]
+    ok = (e[0] == 'if' and e[1] == ('bin', '<', ('name', si), ('name', 'smallAllelePair.length'))
+          and e[2] == ('call', ('name', 'smallAllelePair'), [(None, ('name', si))], None) and _call_args(e[3], ('allelePairSqrt',)) == [('name', si)])
+    ctx.check(ok, 'R5', f'{GENOSC}::Genotype.allelePair::bound', f'engine lookup is `{X.show(e)}`, expected if (i < smallAllelePair.length) smallAllelePair(i) else allelePairSqrt(i)', gp, sd.line)
+
+
+def _r5_bound(ctx: Ctx, m: pf.Module, g: pf.FuncDef, ptab: List[Tuple[int, int]]):
     gi = W.param_names(g)[0]
     iffs = [s for s in g.body if isinstance(s, ast.If)]
     ctx.need(len(iffs) == 1 and len(iffs[0].body) == 1 and isinstance(iffs[0].body[0], ast.Return), 'gt_allele_pair: not `if <bound>: return table[i]; return sqrt(i)`')
@@ -779,12 +1160,6 @@ def _r5(ctx: Ctx, m: pf.Module, pw: PyWriter, pr: PyReader, sc: ScalaCall):
     ctx.check(ok and pf.nsrc(iffs[0].body[0].value) == f'small_allele_pair[{gi}]', 'R5', f'{F}::_tcall._convert_from_encoding::gt_allele_pair bound',
               f'table consulted under `{pf.nsrc(iffs[0].test)}` returning `{pf.nsrc(iffs[0].body[0].value)}`: indices up to len(table) inclusive (or another entry) are looked up - '
               f'IndexError / wrong pair at the boundary', m.path, iffs[0].lineno)
-    sd = sc.G.def_('Genotype', 'allelePair', n_params=1)
-    e = X.from_scala(sd.body)
-    si = sd.params[0][0]
-    ok = (e[0] == 'if' and e[1] == ('bin', '<', ('name', si), ('name', 'smallAllelePair.length'))
-          and e[2] == ('call', ('name', 'smallAllelePair'), [(None, ('name', si))], None) and _call_args(e[3], ('allelePairSqrt',)) == [('name', si)])
-    ctx.check(ok, 'R5', f'{GENOSC}::Genotype.allelePair::bound', f'engine lookup is `{X.show(e)}`, expected if (i < smallAllelePair.length) smallAllelePair(i) else allelePairSqrt(i)', gp, sd.line)
 
 
 def _r6(ctx: Ctx, m: pf.Module, pw: PyWriter, pr: PyReader, sc: ScalaCall):
@@ -794,10 +1169,15 @@ def _r6(ctx: Ctx, m: pf.Module, pw: PyWriter, pr: PyReader, sc: ScalaCall):
     ap = m.func('allele_pair')
     a0, a1 = W.param_names(ap)
     pe = X.from_py(_ret_expr(ctx, ap, 'allele_pair'))
-    apj = pr.helper(ctx, m, 'ap_j')
-    apk = pr.helper(ctx, m, 'ap_k')
-    je = X.from_py(_ret_expr(ctx, apj, 'ap_j'))
-    ke = X.from_py(_ret_expr(ctx, apk, 'ap_k'))
+    apj = _reader_helper(m, 'ap_j')
+    apk = _reader_helper(m, 'ap_k')
+    have_py = apj is not None and apk is not None
+    ctx.need(have_py or pr is None, 'anchor vanished: ap_j / ap_k')
+    if have_py:
+        je = X.from_py(_ret_expr(ctx, apj, 'ap_j'))
+        ke = X.from_py(_ret_expr(ctx, apk, 'ap_k'))
+    else:
+        ctx.info(f'{F}: no helpers named ap_j/ap_k in the decoder; the unpacking of allele pairs is decided by R7')
     sa = sc.G.def_('AllelePair', 'apply', n_params=2)
     for st in sa.stmts()[:-1]:
         ctx.need(_sc_effect_only(st), f'{GENOSC}::AllelePair.apply: unrecognised statement')
@@ -806,9 +1186,11 @@ def _r6(ctx: Ctx, m: pf.Module, pw: PyWriter, pr: PyReader, sc: ScalaCall):
     sk = sc.G.def_('AllelePair', 'k', n_params=1)
     sje, ske = _sc_ret(ctx, sj, 'AllelePair.j'), _sc_ret(ctx, sk, 'AllelePair.k')
     vals = [0, 1, 2, 7, 255, 256, 32767, 32768, 65535]
-    for lang, pack, pn, uj, ujn, uk, ukn, file, rel, line in (
-            ('py', pe, (a0, a1), je, W.param_names(apj)[0], ke, W.param_names(apk)[0], m.path, F + '::allele_pair', ap.lineno),
-            ('scala', se, (sa.params[0][0], sa.params[1][0]), sje, sj.params[0][0], ske, sk.params[0][0], gp, GENOSC + '::AllelePair', sa.line)):
+    combos = []
+    if have_py:
+        combos.append(('py', pe, (a0, a1), je, W.param_names(apj)[0], ke, W.param_names(apk)[0], m.path, F + '::allele_pair', ap.lineno))
+    combos.append(('scala', se, (sa.params[0][0], sa.params[1][0]), sje, sj.params[0][0], ske, sk.params[0][0], gp, GENOSC + '::AllelePair', sa.line))
+    for lang, pack, pn, uj, ujn, uk, ukn, file, rel, line in combos:
         bad = None
         for j in vals:
             for k in vals:
@@ -826,25 +1208,61 @@ def _r6(ctx: Ctx, m: pf.Module, pw: PyWriter, pr: PyReader, sc: ScalaCall):
 def run(ctx: Ctx) -> None:
     ctx.level = 'other'
     ctx.explanation = ('(shift, mask) tables of the call word are extracted from _tcall._convert_to/from_encoding (ast) and from Call.scala (narrow extractors) and compared; '
-                       'index formulas, the small allele-pair tables and the pair packing are compared by evaluating the extracted expression trees on a finite domain.')
-    ctx.rule('R1', 'bit layout phased@0/1bit, ploidy@1/2bits, repr@3 agrees between Python writer, Python reader, Scala Call.apply, fromUnphasedDiploidGtIndex and the Scala accessors', 18)
-    ctx.rule('R2', 'Python writes the 32-bit word as the signed int32 with the same bits and the reader converts back to unsigned before shifting', 2)
-    ctx.rule('R3', 'phased diploid (j,k) -> index(j, j+k) -> (j, k-j); unphased pairs sorted on both sides; allele order [j,k] preserved', 6)
+                       'index formulas, the small allele-pair tables and the pair packing are compared by evaluating the extracted expression trees on a finite domain; '
+                       'the two converter bodies as a whole (all return paths, nested and module-level helpers) are evaluated by an own interpreter on boundary calls / words of '
+                       'every (ploidy, phased) case and compared with the engine\'s Call0/Call1/Call2/Call.apply and accessors; the signedness of the decoded word is tracked per path.')
+    m = pf.load(F)
+    # the tabulated statement shape of the two Python converters (accumulator |= field << shift; if-chain over ploidy): when present, the
+    # per-field rules below give precise diagnostics; when a converter has been restructured (early returns, inline formulas) its behaviour
+    # is decided by the semantic rules R7 / R8 / R2-sign alone and the per-field Python instances are not produced
+    pw: Optional[PyWriter] = None
+    pr: Optional[PyReader] = None
+    why_not = None
+    try:
+        pw = PyWriter(ctx, m)
+        pr = PyReader(ctx, m)
+        # dry run of the shape-dependent rules on a scratch context: if any of them does not recognise the shape, none of them is armed
+        probe = Ctx(ctx.pid, ctx.tier)
+        for rid in ('R1', 'R2', 'R3', 'R4', 'R5', 'R6'):
+            probe.rule(rid, 'probe', 0)
+        sc_probe = ScalaCall(probe)
+        for fn_ in (_r1, _r2, _r3, _r4, _r5, _r6):
+            fn_(probe, m, pw, pr, sc_probe)
+    except AnalysisError as e:
+        pw = pr = None
+        why_not = str(e)
+    legacy = pw is not None
+    ctx.rule('R1', 'bit layout phased@0/1bit, ploidy@1/2bits, repr@3 agrees between Python writer, Python reader, Scala Call.apply, fromUnphasedDiploidGtIndex and the Scala accessors',
+             18 if legacy else 10)
+    ctx.rule('R2', 'Python writes the 32-bit word as the signed int32 with the same bits and the reader converts back to unsigned before any sign-sensitive use (per-path sign dataflow)',
+             3 if legacy else 1)
+    ctx.rule('R3', 'phased diploid (j,k) -> index(j, j+k) -> (j, k-j); unphased pairs sorted on both sides; allele order [j,k] preserved', 6 if legacy else 0)
     ctx.rule('R4', 'gt index k(k+1)/2+j and its sqrt inverse: Python and Scala expression trees evaluate identically and are mutually inverse on the evaluated domain', 3)
-    ctx.rule('R5', 'small allele-pair tables: entry i has k(k+1)/2+j == i, j<=k, Python == Scala on the common prefix, consulted exactly for i < len', 75)
-    ctx.rule('R6', 'allele-pair packing j | k<<16 is inverted by the accessors on each side', 2)
+    ctx.rule('R5', 'small allele-pair tables: entry i has k(k+1)/2+j == i, j<=k, Python == Scala on the common prefix, consulted exactly for i < len', 75 if legacy else 74)
+    ctx.rule('R6', 'allele-pair packing j | k<<16 is inverted by the accessors on each side', 2 if legacy else 1)
+    ctx.rule('R7', 'decoder as a whole (every return path): each engine word of every (ploidy, phased) case, incl. representations >= 2^28 (sign bit set), is unpacked to the call '
+                   'the engine\'s accessors read from it', 6)
+    ctx.rule('R8', 'encoder as a decision list: for every (ploidy, phased) case the int32 written has the bits Call0/Call1/Call2 -> Call.apply pack (phased bit, ploidy, representation)', 6)
     ctx.assume('JVM Int is 32-bit two\'s complement; struct "=i" packs a signed 32-bit integer; Scala infix precedence follows the first operator character')
     ctx.assume('calls in scope: ploidy 0..2, allele representation <= 2^29 - 1 (the engine rejects larger ones)')
-    m = pf.load(F)
     ctx.unit('files', 4)
-    pw = PyWriter(ctx, m)
-    pr = PyReader(ctx, m)
     sc = ScalaCall(ctx)
     ctx.need(sc.max_repr_shift == 29, f'engine range check is (ar >>> {sc.max_repr_shift}) != 0; the analysed range assumes 29')
     ctx.unit('functions', 22)
+    ps = PySem(ctx, m)
+    # semantic rules first: a violation they establish is reported even if a shape-dependent rule below declines
+    _r7_decode(ctx, m, ps, sc)
+    _r8_encode(ctx, m, ps, sc)
+    deferred = _r2_sign(ctx, m, ps)
+    if not legacy:
+        ctx.info(f'{F}::_tcall: the Python converters do not have the tabulated statement shape ({why_not}); their agreement with the engine is decided by R7/R8/R2-sign '
+                 f'(evaluation of the whole bodies), the per-field Python instances of R1-R6 are not produced')
+        ctx.extra_cov['python_shape'] = {'tabulated': False, 'reason': why_not}
     _r1(ctx, m, pw, pr, sc)
-    _r2(ctx, m, pw, pr, sc)
-    _r3(ctx, m, pw, pr, sc)
+    if legacy:
+        _r2(ctx, m, pw, pr, sc)
+        _r3(ctx, m, pw, pr, sc)
     _r4(ctx, m, pw, pr, sc)
     _r5(ctx, m, pw, pr, sc)
     _r6(ctx, m, pw, pr, sc)
+    ctx.need(deferred is None, deferred or '')
